@@ -120,6 +120,8 @@ static std::string sexpr_d(const expression_t& e, const SexprOpts& o, int depth)
             r += " sync" + std::to_string(yv);
     } else if (k == IDENTIFIER) {
         symbol_t s = expr_symbol_raw(e);
+        if (o.subst_sym != nullptr && s == *o.subst_sym)
+            return *o.subst_text;
         if (s == symbol_t())
             r += " <nosymbol>";
         else {
@@ -132,7 +134,7 @@ static std::string sexpr_d(const expression_t& e, const SexprOpts& o, int depth)
             if (expr_value_int(e, iv)) {
                 r += ":" + std::to_string(iv);
                 // the member the index selects, with its (argument-substituted) type
-                if (k == DOT && o.sym_types && n_children_hint(e) == 1) {
+                if (k == DOT && o.sym_types && o.dot_members && n_children_hint(e) == 1) {
                     type_t bt = expr_child(e, 0)->get_type();
                     if (bt.data != nullptr && (bt.is_process() || bt.is_record()) && iv >= 0 &&
                         (size_t)iv < (size_t)bt.get_record_size())
